@@ -15,3 +15,35 @@ Definition count_unsettled_w (cs : list wcase) : list nat :=
 (* scenarios with a post-processor component that has injection points (outside the theorems: KF-C05a) *)
 Definition count_pointed_procs_w (cs : list wcase) : list nat :=
   [length (filter (fun c => negb (procs_pointless_b (normalise repaired (w_scn c)))) cs)].
+
+(* ---- the function evaluated by the correspondence is the function the theorems are about ---------------------
+   [model_obs] runs the extended traced model (Model/FactoryX.v).  For a case without extras its outcome, event
+   log, fields and start history are those of [run] (Model/App.v) and [run_t] (Model/FactoryTrace.v). *)
+From IocVerif Require Import Model.FactoryTrace Model.FactoryX Proofs.FactoryTraceProofs Proofs.FactoryXProofs.
+
+Definition outcome_of (r : res fstate) : outcome :=
+  match r with Ok _ => OOk | Fail (FErr _) _ => OErr | Fail FPanic _ => OPanic | Fail FFuel _ => OOther end.
+Definition state_of (r : res fstate) : fstate := match r with Ok st => st | Fail _ st => st end.
+
+Lemma model_obs_plain vt c :
+  w_x c = no_extras ->
+  ob_outcome (model_obs vt c) = outcome_of (run vt (w_scn c)) /\
+  ob_log (model_obs vt c) = rev (log (state_of (run vt (w_scn c)))) /\
+  ob_fields (model_obs vt c) = fields_obs (w_scn c) no_extras (state_of (run vt (w_scn c))) /\
+  exists l, ob_ops (model_obs vt c) = Some (fst (run_t vt (w_scn c)), l).
+Proof.
+  intros Hx. unfold model_obs. rewrite Hx, run_xt_none. pose proof (run_erase vt (w_scn c)) as He.
+  destruct (run_t vt (w_scn c)) as [o1 r]. cbn [snd fst] in *. subst r.
+  destruct (run vt (w_scn c)) as [st|[e| |] st]; cbn [outcome_of state_of].
+  - destruct (lookups_core_xt vt (normalise vt (w_scn c)) no_extras (w_lookups c) st) as [o2 [st2 outs]].
+    cbn [ob_outcome ob_log ob_fields ob_ops]. repeat split. eexists; reflexivity.
+  - destruct (lookups_core_xt vt (normalise vt (w_scn c)) no_extras (w_lookups c) st) as [o2 [st2 outs]].
+    cbn [ob_outcome ob_log ob_fields ob_ops]. repeat split. eexists; reflexivity.
+  - cbn [ob_outcome ob_log ob_fields ob_ops]. repeat split. eexists; reflexivity.
+  - cbn [ob_outcome ob_log ob_fields ob_ops]. repeat split. eexists; reflexivity.
+Qed.
+
+(* how many cases of a run carry extras (they are decided by correspondence and oracles only) *)
+Definition has_extras (c : wcase) : bool :=
+  match x_short (w_x c), x_initget (w_x c) with [], [] => false | _, _ => true end.
+Definition count_extras_w (cs : list wcase) : list nat := [length (filter has_extras cs)].
